@@ -208,6 +208,31 @@ func IsErrIdempotencyKeyReused(err error) bool {
 	return errors.Is(err, &errIdempotencyKeyReused{})
 }
 
+// errInvalidUTF8: a string of the request is not valid UTF-8. encoding/json writes such bytes as \ufffd, so a log
+// entry holding them would not read back as it was written and its hash could not be verified from the stored content.
+type errInvalidUTF8 struct {
+	what string
+}
+
+func (e *errInvalidUTF8) Error() string {
+	return fmt.Sprintf("invalid %s: not valid UTF-8", e.what)
+}
+
+func (e *errInvalidUTF8) Is(err error) bool {
+	_, ok := err.(*errInvalidUTF8)
+	return ok
+}
+
+func NewErrInvalidUTF8(what string) *errInvalidUTF8 {
+	return &errInvalidUTF8{
+		what: what,
+	}
+}
+
+func IsErrInvalidUTF8(err error) bool {
+	return errors.Is(err, &errInvalidUTF8{})
+}
+
 type errMachine struct {
 	err error
 }
